@@ -55,7 +55,7 @@ PROPS = {
     "C11": {"level": MC, "steps": [_math(59, 59, 1), {"kind": "mc", "name": "MC_PairingProduct", "workers": 4}, _wl("c11")]},
     "C12": {"level": MC, "steps": [_math(59, 60, 2), _wl("c12")]},
     "C13": {"level": MC, "steps": [_hash(1, 6), _wl("c13")]},
-    "C14": {"level": MC, "steps": [_iso(9, 16), _gen("Gen_Map"), _gen("Gen_MapSub"), _gen("Gen_MapY"), _wl("c14")]},
+    "C14": {"level": MC, "steps": [_iso(9, 16), _gen("Gen_Map"), _gen("Gen_MapSub"), _gen("Gen_MapY"), _gen("Gen_MapN", "unitden"), _wl("c14")]},
     "C15": {"level": MC, "steps": [_iso(9, 16), _gen("Gen_Map"), _gen("Gen_MapDiag"), _gen("Gen_MapY"), _gen("Gen_MapN"), _wl("c15")]},
     "C16": {"level": MC, "steps": [_iso(), _gen("Gen_Iso"), _gen("Gen_IsoPrefix"), _gen("Gen_Rep", "rep-iso"), _wl("c16")]},
     "C17": {"level": MC, "steps": [_math(55, 56, 2), _gen("Gen_Enc"), _gen("Gen_Rep", "rep-clearh"), _wl("c17")]},
